@@ -74,3 +74,15 @@ Proof.
   vm_compute. repeat split; auto.
 Qed.
 Print Assumptions C10_endgame_limit_zero_starves.
+
+(* ... and for a piece that IS reserved for a web seed but lies beyond the piece the web seed is working
+   on: the idle holder steals it (so the only needed pieces an idle holder is not given are the ones a
+   web seed is fetching at this moment) *)
+Theorem C10_idle_holder_steals_from_a_webseed : forall s pe i k d, downloading_ws s = true ->
+  let P := get_peer (peers (base s)) pe in let p := get_piece (base s) i in
+  pe_downloading P = false -> pe_choking P = false ->
+  0 <= k < zlen (srcs s) -> get_src s k = Some d -> remaining d <> 0 -> d_cur d < i < d_end d ->
+  p_done p = false -> p_writing p = false -> In pe (p_having p) -> p_req p = [] ->
+  wpick_check s pe None = None.
+Proof. exact ws_idle_holder_can_steal. Qed.
+Print Assumptions C10_idle_holder_steals_from_a_webseed.
